@@ -516,6 +516,17 @@ decodeMore:
  */
         return MATRIXSSL_SUCCESS;
     }
+#ifdef USE_DTLS
+    if (ACTV_VER(ssl, v_dtls_any) && end - c < ssl->recordHeadLen)
+    {
+        /* A DTLS record never continues in the next datagram. What is left
+           here is too short to be a record header: silently discard it
+           (RFC 6347, 4.1.2.7). Asking for more input would keep these bytes
+           in front of the next datagram, which would then be misparsed. */
+        *buf = end;
+        return MATRIXSSL_SUCCESS;
+    }
+#endif
     /* Even for SSLv2, we want at least 5 bytes in the record to continue */
     if (end - c < SSL3_HEADER_LEN)
     {
